@@ -107,6 +107,20 @@ func (p *Parser) getAlignmentInfo() alignmentInfo {
 	return ret
 }
 
+// runeOffset returns the byte offset of the n-th character of s (len(s) if s
+// has no more than n characters).
+func runeOffset(s string, n int) int {
+	for i := range s {
+		if n == 0 {
+			return i
+		}
+
+		n--
+	}
+
+	return len(s)
+}
+
 func wrapText(s string, l int, prefix string) string {
 	var ret string
 
@@ -114,7 +128,7 @@ func wrapText(s string, l int, prefix string) string {
 		l = 10
 	}
 
-	// Basic text wrapping of s at spaces to fit in l
+	// Basic text wrapping of s at spaces to fit in l characters
 	lines := strings.Split(s, "\n")
 
 	for _, line := range lines {
@@ -122,14 +136,14 @@ func wrapText(s string, l int, prefix string) string {
 
 		line = strings.TrimSpace(line)
 
-		for len(line) > l {
+		for utf8.RuneCountInString(line) > l {
 			// Try to split on space
 			suffix := ""
 
-			pos := strings.LastIndex(line[:l], " ")
+			pos := strings.LastIndex(line[:runeOffset(line, l)], " ")
 
 			if pos < 0 {
-				pos = l - 1
+				pos = runeOffset(line, l-1)
 				suffix = "-\n"
 			}
 
@@ -210,7 +224,7 @@ func (p *Parser) writeHelpOption(writer *bufio.Writer, option *Option, info alig
 		}
 	}
 
-	written := line.Len()
+	written := utf8.RuneCount(line.Bytes())
 	line.WriteTo(writer)
 
 	if option.Description != "" {
@@ -259,10 +273,10 @@ func maxCommandLength(s []*Command) int {
 		return 0
 	}
 
-	ret := len(s[0].Name)
+	ret := utf8.RuneCountInString(s[0].Name)
 
 	for _, v := range s[1:] {
-		l := len(v.Name)
+		l := utf8.RuneCountInString(v.Name)
 
 		if l > ret {
 			ret = l
@@ -450,7 +464,7 @@ func (p *Parser) WriteHelp(writer io.Writer) {
 					wr.WriteString(argPrefix)
 
 					// Space between "arg:" and the description start
-					descPadding := strings.Repeat(" ", descStart-len(argPrefix))
+					descPadding := strings.Repeat(" ", descStart-utf8.RuneCountInString(argPrefix))
 					// How much space the description gets before wrapping
 					descWidth := aligninfo.terminalColumns - 1 - descStart
 					// Whitespace to which we can indent new description lines
@@ -481,7 +495,7 @@ func (p *Parser) WriteHelp(writer io.Writer) {
 			fmt.Fprintf(wr, "  %s", c.Name)
 
 			if len(c.ShortDescription) > 0 {
-				pad := strings.Repeat(" ", maxnamelen-len(c.Name))
+				pad := strings.Repeat(" ", maxnamelen-utf8.RuneCountInString(c.Name))
 				fmt.Fprintf(wr, "%s  %s", pad, c.ShortDescription)
 
 				if len(c.Aliases) > 0 {
